@@ -14,6 +14,13 @@ Legs
      constant must agree) constructed TLVs inside one another; well-formed input nested up to
      the limit must be accepted (also with a quarter of the default stack), deeper input must
      be answered with the "Too deep nesting" diagnostic - never with a stack overflow.
+     Presentation modes: the same inputs plus a family of primitive TLVs (OBJECT IDENTIFIER / RELATIVE-OID /
+     string / time / INTEGER / ENUMERATED / BOOLEAN / REAL / NULL contents of many lengths, every universal tag and
+     the other classes) also go through the DEFAULT mode (pretty-printing, no -p), `-m`, `-m -p` and `-i <n>`:
+     never a signal or a sanitizer report; on well-formed input the structure attributes equal the python walk,
+     a reformatted value (flag F) equals the python rendering written from X.690 8.2 / 8.3 / 8.19 / 8.20
+     (BOOLEAN, INTEGER, dotted OID text) and every other value decodes back (characters + &#xNN;) to the
+     content octets.
 """
 import json, os, re, resource, subprocess
 from concurrent.futures import ThreadPoolExecutor
@@ -21,6 +28,18 @@ from .. import build, build_tools
 
 KF_NONMINIMAL = "F8"     # enber cannot reproduce non-minimal length forms
 # (F41, unbounded recursion of process_deeper, is repaired: no matcher - a crash on deep nesting is a violation)
+KF_ITOA_SHIFT = "F231"  # asn1p_itoa_s: ASN_INTEGER_MIN shifts 1 into the sign bit (UB) - reached by unber's INTEGER pretty-printer
+# findings of this property that KNOWN_FINDINGS.json may not list yet (proposed entries; the file wins)
+PROPOSED = [
+ {"id": "F231", "property": "C20", "status": "known",
+  "what": "unber in its default (pretty-printing) mode prints an INTEGER / ENUMERATED of up to sizeof(asn1c_integer_t) (16 with __int128) content octets through "
+          "asn1p_itoa; for a negative value below LONG_MIN asn1p_itoa_s evaluates ASN_INTEGER_MIN = -(~0 & ~((asn1c_integer_t)1 << 127)) - 1: a left shift of 1 "
+          "into the sign bit of a signed type, undefined behaviour (C99 6.5.7p4); the UBSan build of unber stops with 'left shift of 1 by 127 places cannot be "
+          "represented in type __int128' (libasn1parser/asn1p_integer.c:120) on the 11 octets 02 09 ff 00 00 00 00 00 00 00 00. unber -p is not affected",
+  "witness": {"tool": "unber -", "input_hex": "0209ff0000000000000000", "expect": "runtime error: left shift of 1 by 127 places"},
+  "matcher": "sanitizer summary names asn1p_integer.c and 'left shift of 1 by' AND the input holds a [UNIVERSAL 2] / [UNIVERSAL 10] primitive header followed by 9..16 as "
+             "length and a first content octet >= 0x80 (python scan of the input octets); pretty-printing modes only"},
+]
 SMALL_STACK_KB = 2048    # a quarter of the usual 8 MB: nesting at the limit must fit (ASan build included)
 
 def nesting_limit():
@@ -133,40 +152,132 @@ def max_header(nodes):
 
 CLASS_NAMES = {None: 2, "UNIVERSAL": 0, "APPLICATION": 1, "PRIVATE": 3}
 _TAG = r'T="\[(?:(UNIVERSAL|APPLICATION|PRIVATE) )?(\d+)\]"'
-RE_OPEN = re.compile(r'^( *)<([PCI]) O="(\d+)" ' + _TAG + r' TL="(\d+)" V="(Indefinite|\d+)"(?: A="[^"<>]*")?>(.*)$')
-RE_CLOSE = re.compile(r'^( *)</([CI]) O="(\d+)" ' + _TAG + r'(?: TL="(\d+)")?(?: A="[^"<>]*")? L="(\d+)">$')
+RE_OPEN = re.compile(r'^( *)<([PCI])(?: O="(\d+)")? ' + _TAG + r' TL="(\d+)" V="(Indefinite|\d+)"(?: A="([^"<>]*)")?( F)?>(.*)$')
+RE_CLOSE = re.compile(r'^( *)</([CI])(?: O="(\d+)")? ' + _TAG + r'(?: TL="(\d+)")?(?: A="([^"<>]*)")?(?: L="(\d+)")?>$')
 RE_PBODY = re.compile(r'^((?:&#x[0-9a-f]{2};)*)</P>$')
 
-def parse_unber_text(text):
-    """records in the format of walk(); raises ValueError on a line of unknown shape"""
+def parse_unber_text(text, indent=4, minimal=False, pretty=False):
+    """records in the format of walk(); raises ValueError on a line of unknown shape.
+    indent: the -i value (0: the level cannot be read, None is recorded); minimal: -m (no O= / A= / L= attributes, closing
+    TL= never printed: None is recorded); pretty: no -p, the content of a primitive is recorded as (F flag, body text)."""
     out = []
     if text and not text.endswith("\n"):
         raise ValueError("output does not end with a newline")
+    def level(ind, line):
+        if indent == 0:
+            if ind: raise ValueError("indent: " + line[:80])
+            return None
+        if len(ind) % indent: raise ValueError("indent: " + line[:80])
+        return len(ind) // indent
     for line in text.split("\n")[:-1] if text else []:
         m = RE_OPEN.match(line)
         if m:
-            ind, form, o, cname, num, tl, v, rest = m.groups()
-            if len(ind) % 4: raise ValueError("indent: " + line[:80])
-            lvl = len(ind) // 4
+            ind, form, o, cname, num, tl, v, a, fflag, rest = m.groups()
+            lvl = level(ind, line)
+            if (o is None) != minimal: raise ValueError("O attribute: " + line[:80])
+            if minimal and a is not None: raise ValueError("A attribute in minimalistic mode: " + line[:80])
+            if fflag and (not pretty or form != "P"): raise ValueError("F flag: " + line[:80])
             vv = v if v == "Indefinite" else int(v)
+            oo = None if o is None else int(o)
             if form == "P":
-                b = RE_PBODY.match(rest)
-                if not b: raise ValueError("primitive body: " + line[:80])
-                content = bytes(int(h, 16) for h in re.findall(r"&#x([0-9a-f]{2});", b.group(1)))
-                out.append(("open", lvl, "P", int(o), CLASS_NAMES[cname], int(num), int(tl), vv, content))
+                if pretty:
+                    if not rest.endswith("</P>"): raise ValueError("primitive body: " + line[:80])
+                    content = (bool(fflag), rest[:-4])
+                else:
+                    b = RE_PBODY.match(rest)
+                    if not b: raise ValueError("primitive body: " + line[:80])
+                    content = bytes(int(h, 16) for h in re.findall(r"&#x([0-9a-f]{2});", b.group(1)))
+                out.append(("open", lvl, "P", oo, CLASS_NAMES[cname], int(num), int(tl), vv, content))
             else:
                 if rest != "": raise ValueError("text after constructed opening tag: " + line[:80])
-                out.append(("open", lvl, form, int(o), CLASS_NAMES[cname], int(num), int(tl), vv, None))
+                out.append(("open", lvl, form, oo, CLASS_NAMES[cname], int(num), int(tl), vv, None))
             continue
         m = RE_CLOSE.match(line)
         if m:
-            ind, form, o, cname, num, tl, L = m.groups()
-            if len(ind) % 4: raise ValueError("indent: " + line[:80])
-            out.append(("close", len(ind) // 4, form, int(o), CLASS_NAMES[cname], int(num),
-                        int(tl) if tl is not None else None, int(L)))
+            ind, form, o, cname, num, tl, a, L = m.groups()
+            if (o is None) != minimal or (L is None) != minimal: raise ValueError("O / L attribute: " + line[:80])
+            if minimal and (a is not None or tl is not None): raise ValueError("A / TL attribute in minimalistic mode: " + line[:80])
+            out.append(("close", level(ind, line), form, None if o is None else int(o), CLASS_NAMES[cname], int(num),
+                        int(tl) if tl is not None else None, None if L is None else int(L)))
             continue
         raise ValueError("unrecognised line: " + line[:120])
     return out
+
+def project(records, indent=4, minimal=False):
+    """the walk() records as a presentation mode shows them"""
+    out = []
+    for r in records:
+        r = list(r)
+        if indent == 0: r[1] = None
+        if minimal:
+            r[3] = None
+            if r[0] == "close": r[6] = None; r[7] = None
+        out.append(tuple(r))
+    return out
+
+# ------------------------------------------------------------------ pretty-printed values (default mode): python rendering
+ARC_LIMIT = 1 << 32          # asn_oid_arc_t is 32 bits wide: an arc beyond it cannot be reformatted (printed as octets)
+PRETTY_BUF_LIMIT = 128 * 1024
+
+def oid_arcs(content, relative):
+    """X.690 8.19 / 8.20: (arcs | None when the contents are not a whole number of subidentifiers or empty,
+    sub-identifier values, has a subidentifier with a leading 0x80 octet)"""
+    subs = []; acc = 0; n = 0; lead80 = False
+    for b in content:
+        if n == 0 and b == 0x80: lead80 = True
+        acc = (acc << 7) | (b & 0x7f); n += 1
+        if not b & 0x80:
+            subs.append(acc); acc = 0; n = 0
+    if n or not subs: return None, subs, lead80
+    if relative: return list(subs), subs, lead80
+    f = subs[0]
+    first = [0, f] if f < 40 else [1, f - 40] if f < 80 else [2, f - 80]
+    return first + subs[1:], subs, lead80
+
+def unescape(body):
+    """characters + &#xNN; -> octets; None if the text holds a raw markup character or a malformed reference"""
+    out = bytearray(); i = 0
+    while i < len(body):
+        ch = body[i]
+        if ch == "&":
+            mm = re.match(r"&#x([0-9a-f]{2});", body[i:i + 6])
+            if not mm: return None
+            out.append(int(mm.group(1), 16)); i += 6
+        elif ch in "<>" or ord(ch) < 0x20 or ord(ch) > 0xff: return None
+        else: out.append(ord(ch)); i += 1
+    return bytes(out)
+
+def pretty_value_error(cls, num, content, fflag, body):
+    """None when the printed value (F flag, body text) is a faithful presentation of the primitive's content octets"""
+    n = len(content)
+    want_f = None; text = None          # want_f: True / False / None (either)
+    if cls == 0 and num == 1 and n == 1:                               # BOOLEAN, X.690 8.2
+        want_f = True
+        text = "<false/>" if content[0] == 0 else "<true/>" if content[0] == 0xff else '<true value="&#x%02x"/>' % content[0]
+    elif cls == 0 and num in (2, 10) and n <= 16:                      # INTEGER / ENUMERATED, 8.3: two's complement
+        want_f = True if n <= 8 else None                              # (9..16 octets: reformatted when the build has a 128-bit integer)
+        text = str(int.from_bytes(content, "big", signed=True)) if n else "0"
+    elif cls == 0 and num in (6, 13) and n > 0:                        # OBJECT IDENTIFIER 8.19 / RELATIVE-OID 8.20
+        arcs, subs, lead80 = oid_arcs(content, num == 13)
+        if arcs is None: want_f = False
+        else:
+            text = ".".join(str(a) for a in arcs)
+            if any(s >= ARC_LIMIT for s in subs): want_f = False
+            elif lead80 or n >= PRETTY_BUF_LIMIT: want_f = None
+            else: want_f = True
+    else:
+        want_f = False
+    if fflag:
+        if want_f is False: return "value flagged F (reformatted) but it is not a reformattable value"
+        if body != text: return f"reformatted value {body[:80]!r}, expected {str(text)[:80]!r}"
+        return None
+    if want_f is True: return f"value not reformatted, expected F and {str(text)[:80]!r}"
+    got = unescape(body)
+    if got is None: return f"value text holds raw markup / malformed reference: {body[:80]!r}"
+    if got != bytes(content):
+        k = next((i for i, (a, b) in enumerate(zip(got, content)) if a != b), min(len(got), n))
+        return f"value text decodes to {len(got)} octets, differing from the {n} content octets at {k}"
+    return None
 
 # ------------------------------------------------------------------ generators
 
@@ -239,6 +350,92 @@ def fixed_wellformed():
     cases.append([Node(0, 16, "I", [Node(0, 17, "I", [Node(2, 1, "C", [P(0, 0x1f + 1, b"ab")])]), P(0, 5)]), P(0, 5)])
     cases.append([P(1, 1, bytes(range(256)))])                        # every octet value as content
     return cases
+
+def sub_id(v):
+    """one subidentifier, X.690 8.19.2"""
+    out = [v & 0x7f]; v >>= 7
+    while v: out.append(0x80 | (v & 0x7f)); v >>= 7
+    return bytes(reversed(out))
+
+def primitive_contents(rng, q):
+    """[(universal tag number, content octets)]: primitives the default mode reformats or prints as text, of many lengths"""
+    out = []
+    # OBJECT IDENTIFIER (6) / RELATIVE-OID (13)
+    oids = [b"", bytes([0x2b, 0x06, 0x01, 0x04, 0x01, 0x09])]                 # 1.3.6.1.4.1.9: single-octet arcs only
+    oids += [bytes([b]) for b in (0x00, 0x01, 0x27, 0x28, 0x4f, 0x50, 0x7f, 0x80, 0x81, 0xff)]
+    for n in (2, 3, 4, 5, 7, 8, 9, 15, 16, 17, 31, 32, 33, 63, 64, 127, 128, 129, 255, 256, 257, 1000, 4096):
+        oids.append(bytes((7 * i + 1) & 0x7f for i in range(n)))             # n single-octet subidentifiers
+        oids.append(bytes([0x2a] + [0x00] * (n - 1)))
+    big = [127, 128, 16383, 16384, (1 << 21) - 1, 1 << 21, (1 << 28) - 1, 1 << 28, (1 << 31) - 1, 1 << 31, (1 << 32) - 1, 1 << 32,
+           (1 << 32) + 79, (1 << 32) + 80, (1 << 35) - 1, 1 << 35, (1 << 63), (1 << 64) - 1, 1 << 64, 1 << 70]
+    for v in big:
+        oids.append(sub_id(v)); oids.append(b"\x2b" + sub_id(v)); oids.append(b"\x2b" + sub_id(v) + b"\x01"); oids.append(sub_id(v) + sub_id(v))
+    for v in (39, 40, 79, 80, 81, 119, 120, 999 + 80, (1 << 32) - 1, (1 << 32) - 81):
+        oids.append(sub_id(v) + b"\x03")                                       # first subidentifier = 40 X + Y
+    oids += [b"\x2b\x86", b"\x86", b"\x2b\x80\x01", b"\x80\x01", b"\x80\x80\x80\x80\x80\x80\x01", b"\x2b\xff\xff\xff\xff\x7f", b"\x2b\xff\xff\xff\xff\xff\x7f",
+             b"\x2b" + b"\x81" * 200 + b"\x00", b"\x2b" + b"\x80" * 200 + b"\x01", b"\x2b" + b"\x86\x48" * 70, bytes([0x2b]) + bytes([0x81, 0x00]) * 64]
+    for _ in range(40 if q else 600):
+        n = rng.choice([1, 2, 3, 5, 8, 13, 30, 127, 128, 129, 300])
+        r = rng.random()
+        if r < 0.5: oids.append(bytes(rng.randrange(128) for _ in range(n)))               # single-octet arcs only
+        elif r < 0.8: oids.append(b"".join(sub_id(rng.getrandbits(rng.choice([3, 7, 8, 14, 21, 28, 32, 33]))) for _ in range(n))[:2000])
+        else: oids.append(bytes(rng.getrandbits(8) for _ in range(n)))
+    if not q: oids += [bytes([0x2b]) + b"\x01" * (PRETTY_BUF_LIMIT - 2), bytes([0x2b]) + b"\x01" * (PRETTY_BUF_LIMIT - 1), bytes([0x2b]) + b"\x01" * PRETTY_BUF_LIMIT]
+    else: oids += [bytes([0x2b]) + b"\x01" * (PRETTY_BUF_LIMIT - 2), bytes([0x2b]) + b"\x01" * (PRETTY_BUF_LIMIT - 1)]
+    for c in oids: out.append((6, c)); out.append((13, c))
+    # BOOLEAN (1), INTEGER (2), ENUMERATED (10)
+    for c in [b"", b"\x00", b"\xff", b"\x01", b"\x80", b"\x7f", b"\x00\x00", b"\xff\xff", b"\x00\xff\x00"]: out.append((1, c))
+    ints = [b""]
+    for n in range(1, 11):
+        for c in (b"\x00" * n, b"\xff" * n, b"\x7f" + b"\xff" * (n - 1), b"\x80" + b"\x00" * (n - 1), b"\x00" + b"\x80" * (n - 1), b"\xff" + b"\x7f" * (n - 1),
+                  b"\x01" + b"\x00" * (n - 1), bytes(rng.getrandbits(8) for _ in range(n))):
+            ints.append(c)
+    ints += [b"\x12" * 16, b"\xff" * 127, b"\x00" * 128]
+    for c in ints: out.append((2, c)); out.append((10, c))
+    # REAL (9), NULL (5), BIT STRING (3) and the tags without a type
+    for c in [b"", b"\x40", b"\x41", b"\x42", b"\x43", b"\x80\x00\x01", b"\x81\xff\xfe\x03", b"\xc0\x04\x01", b"\x03\x31\x2e\x45\x30", b"\x01\x31", b"\x02\x31\x2e\x35",
+              b"\x83\x00", b"\x83\x02\x01\x02\x03", b"\xbf\xff\xff", bytes(range(0x20, 0x40)), b"\x00" * 130]:
+        out.append((9, c)); out.append((5, c)); out.append((3, c)); out.append((14, c)); out.append((0x1f + 5, c))
+    # character strings, times, OCTET STRING, ObjectDescriptor: text / binary mixtures around the 1/8 threshold, markup, controls
+    texts = [b"", b"a", b"<", b"&", b">", b"\x00", b"\x1b", b"\x7f", b"\x80", b"\xff", b"\t\n\r", b"hello world", b"<a href=\"x\">&amp;</a>", b"</P>", b"&#x41;", b" F>x",
+             b"20250929120000Z", b"250929120000Z", b"20250929120000.123+0100", b"2025092912", b"99999999999999Z", b"20250229250000Z", b"\x0020250929",
+             "héllo 世界 \U0001f600".encode("utf-8"), b"\xc3", b"\xe4\xb8", b"\xc0\xaf", b"\xed\xa0\x80", b"\x00h\x00i", b"\x00\x00\x00h\x00\x01\xf6\x00",
+             b"0123456789 ", b"A-Z a-z '()+,-./:=?", bytes(range(256)), bytes(range(0x20, 0x7f)), bytes(range(0x80, 0x100)), bytes(range(0x20))]
+    for n in (7, 8, 9, 15, 16, 17, 24, 64, 127, 128, 129, 255, 256, 1000):
+        for nb in sorted({0, 1, n // 8, n // 8 + 1, n // 2}):
+            t = bytearray(b"t" * n)
+            for j in rng.sample(range(n), min(nb, n)): t[j] = rng.choice([0x00, 0x01, 0x7f, 0x80, 0xe9, 0xff, 0x1f])
+            texts.append(bytes(t))
+        t = bytearray(b"e" * n); t[rng.randrange(n)] = 0x1b; texts.append(bytes(t))
+        t = bytearray(b"w" * n)
+        for j in rng.sample(range(n), n // 3): t[j] = rng.choice([0x09, 0x0a, 0x0d])
+        texts.append(bytes(t))
+    for _ in range(30 if q else 500):
+        n = rng.choice([1, 2, 3, 8, 20, 100, 200])
+        alpha = rng.choice([list(range(0x20, 0x7f)), list(range(256)), [0x3c, 0x3e, 0x26, 0x41, 0x20], list(range(0x41, 0x5b)) + [0x80, 0x00]])
+        texts.append(bytes(rng.choice(alpha) for _ in range(n)))
+    texts += [b"x" * (PRETTY_BUF_LIMIT - 1), b"x" * PRETTY_BUF_LIMIT]
+    STR_TAGS = [4, 7, 12, 18, 19, 20, 21, 22, 23, 24, 25, 26, 27, 28, 30]
+    for i, c in enumerate(texts):
+        if len(c) > 300: tags = [STR_TAGS[i % len(STR_TAGS)], 4, 12]
+        elif q: tags = [STR_TAGS[(3 * i + j) % len(STR_TAGS)] for j in range(3)]      # every tag, in turn
+        else: tags = STR_TAGS
+        for t in tags: out.append((t, c))
+    return out
+
+def primitive_forests(rng, q):
+    """the primitives of primitive_contents: alone, under the other tag classes, inside definite / indefinite constructed TLVs"""
+    prims = primitive_contents(rng, q)
+    out = []
+    for i, (t, c) in enumerate(prims):
+        out.append([Node(0, t, "P", c)])
+        if i % 7 == 0 and len(c) < 5000: out.append([Node(rng.choice([1, 2, 3]), rng.choice([0, 1, 2, 6, 13, 30, 31, 1000]), "P", c)])
+    small = [(t, c) for t, c in prims if len(c) <= 40]
+    for _ in range(40 if q else 600):
+        kids = [Node(0, t, "P", c) for t, c in rng.sample(small, rng.choice([1, 2, 3, 5]))]
+        out.append([Node(0, rng.choice([16, 17]), rng.choice("CI"), kids)])
+        out.append([Node(2, rng.randrange(4), "C", [Node(0, 16, "I", kids[:2]), kids[0]]), kids[-1]])
+    return out
 
 def fixed_nonminimal():
     P = lambda c, n, body=b"", lf=None: Node(c, n, "P", body, lf)
@@ -370,9 +567,93 @@ def text_mutations(rng, text):
     outs.append(text.replace(b' TL="', b' tl="'))        # no TL attributes at all: enber must not check them
     return outs
 
+def mode_output_error(forest, out, indent, minimal, pretty):
+    """None when the output of a presentation mode shows exactly the TLV structure of the forest (and faithful values)"""
+    exp = []
+    walk(forest, 0, 0, exp)
+    exp = project(exp, indent, minimal)
+    try:
+        got = parse_unber_text(out.decode("latin1"), indent, minimal, pretty)
+    except ValueError as e:
+        return "output has an unexpected shape: %s" % e
+    for k, (g, e) in enumerate(zip(got, exp)):
+        if pretty and g[0] == "open" and g[2] == "P" and e[2] == "P":
+            if g[:8] != e[:8]: return f"element {k}: printed {g[:8]}, expected {e[:8]}"[:500]
+            err = pretty_value_error(e[4], e[5], e[8], g[8][0], g[8][1])
+            if err: return f"element {k} ([{'UACP'[e[4]]} {e[5]}], {len(e[8])} content octets {bytes(e[8][:24]).hex()}): {err}"[:600]
+        elif g != e:
+            return f"element {k}: printed {g}, expected {e}"[:600]
+    if len(got) != len(exp): return f"{len(got)} elements printed, {len(exp)} expected"
+    return None
+
+RE_WIDE_NEGATIVE_INT = re.compile(rb"[\x02\x0a][\x09-\x10][\x80-\xff]")      # region of F231
+
+MODES = [   # name, options, -i value, minimalistic, pretty-printing, share of the inputs (1 = all, k = every k-th)
+    ("default", [], 4, False, True, 1),
+    ("-m", ["-m"], 4, True, True, 7),
+    ("-m -p", ["-m", "-p"], 4, True, False, 14),
+    ("-i 0", ["-i", "0"], 0, False, True, 14),
+    ("-i 1 -p", ["-i", "1", "-p"], 1, False, False, 14),
+    ("-i 8", ["-i", "8"], 8, False, True, 14),
+    ("-i 15 -m", ["-i", "15", "-m"], 15, True, True, 14),
+]
+
+def presentation_modes(ctx, unber, items, accepted, pfail):
+    """items: [(kind, x, forest | None)]; accepted: indexes of the well-formed items `unber -p` accepted with the right fields.
+    Safety on everything, structure + values on the accepted ones, in every presentation mode."""
+    res = {}
+    # witness of the known finding F231 (a fixed or absent entry: the crash is a violation like any other)
+    for f in ctx.findings:
+        w = f.get("witness", {})
+        if f["id"] == KF_ITOA_SHIFT and f.get("status") == "known" and "input_hex" in w:
+            rc, out, err = run_tool([unber, "-"], unhx(w["input_hex"]))
+            if w["expect"] in err: ctx.known(f)
+            else: ctx.log(f"note: finding {f['id']} no longer reproduces on its witness (exit {rc})")
+    for mi, (name, opts, indent, minimal, pretty, share) in enumerate(MODES):
+        idx = [i for i in range(len(items)) if (i + mi) % share == 0]
+        runs = pmap(lambda i: run_tool([unber] + opts + ["-"], items[i][1]), idx)
+        nfail = 0; nval = 0; nknown = 0
+        for i, (rc, out, err) in zip(idx, runs):
+            kind, x, forest = items[i]
+            c = crash_summary(rc, err)
+            if c:
+                if pretty and "asn1p_integer.c" in c and "left shift of 1 by" in c and RE_WIDE_NEGATIVE_INT.search(x) \
+                   and ctx.match_finding(lambda f: f["id"] == KF_ITOA_SHIFT):
+                    nknown += 1
+                    continue
+                nfail += 1
+                pfail.append(("crash", f"unber {name} died on input ({len(x)} bytes): {c}", {"input_hex": hx(x)[:100000], "stderr": err[:2000], "tool": "unber " + name, "options": opts}))
+                continue
+            ctx.count_nontrivial(("mode", name, x, rc))
+            if i not in accepted: continue
+            nval += 1
+            if rc != 0:
+                nfail += 1
+                pfail.append(("mode", f"unber {name} rejects an input that unber -p accepts: {err.strip()[:200]}", {"input_hex": hx(x)[:100000], "tool": "unber " + name, "options": opts}))
+                continue
+            e = mode_output_error(forest, out, indent, minimal, pretty)
+            if e:
+                nfail += 1
+                pfail.append(("mode", f"unber {name}: {e}", {"input_hex": hx(x)[:100000], "tool": "unber " + name, "options": opts, "output": out[:3000].decode("latin1")}))
+        res[name] = {"runs": len(idx), "structure_and_values_checked": nval, "failures": nfail, "known_" + KF_ITOA_SHIFT: nknown}
+        ctx.cov["evaluations"] += len(idx)
+    # the option parser itself: out-of-range indent values are a usage error (EX_USAGE), never a memory error
+    for opts in (["-i", "16"], ["-i", "-1"], ["-i", "15"], ["-i", "x"], ["-s", "-1"], ["-s", "2"], ["-1"], ["-1", "-m", "-i", "2"]):
+        rc, out, err = run_tool([unber] + opts + ["-"], bytes([0x30, 0x03, 0x06, 0x01, 0x2b, 0x05, 0x00]))
+        bad = next((l.strip()[:200] for l in err.split("\n") if "ERROR: AddressSanitizer" in l or "runtime error" in l or "DEADLYSIGNAL" in l), None)
+        if bad or rc not in (0, 64, 65):
+            pfail.append(("crash", f"unber {' '.join(opts)}: exit {rc} {bad or err.strip()[:160]}", {"input_hex": "30030601" + "2b0500", "tool": "unber " + " ".join(opts), "options": opts}))
+    ctx.cov["predicate"]["presentation_modes"] = res
+
 # ------------------------------------------------------------------ the check
 
+def findings(ctx):
+    have = {f["id"] for f in ctx.findings}
+    for f in PROPOSED:
+        if f["id"] not in have: ctx.findings.append(f)
+
 def run(ctx):
+    findings(ctx)
     unber, enber = build_tools.build_tools()
     ctx.lean()
     rng = ctx.rng
@@ -398,6 +679,9 @@ def run(ctx):
     for d in ([10, 40, 100] if q else [10, 40, 100, 200, 300]):
         for fc in ("C", "I", "CI"):
             wf.append(chain(rng, d, fc))
+    n_general = len(wf)
+    prim = primitive_forests(rng, q)
+    wf += prim[::8] if q else prim          # (quick tier: an eighth of the family also goes through -p / the model / enber)
     nonmin = list(fixed_nonminimal())
     for i in range(60 if q else 1500):
         f = rand_forest(rng, rng.choice([0, 1, 2, 3]), rng.choice([1, 2]), nonmin=0.5)
@@ -412,7 +696,9 @@ def run(ctx):
         if 0 < len(x) <= 400:
             bad += [x[:i] for i in range(1, len(x))]
     for _ in range(700 if q else 30000):
-        bad.append(mutate(rng, rng.choice(wf_x[:len(wf_x) - 9] + nonmin_x)))
+        bad.append(mutate(rng, rng.choice(wf_x[:n_general - 9] + nonmin_x)))
+    prim_x = [x for x in map(encode_forest, prim) if len(x) <= 600]
+    prim_bad = [mutate(rng, rng.choice(prim_x)) for _ in range(400 if q else 6000)]
     for _ in range(300 if q else 10000):
         n = rng.choice([1, 2, 3, 5, 8, 16, 40, 100])
         pool = rng.choice([None, [0x30, 0x80, 0x00, 0x04, 0x01, 0x1f, 0xa0, 0x81, 0xff]])
@@ -421,7 +707,7 @@ def run(ctx):
 
     all_inputs = [("wf", x) for x in wf_x] + [("nonmin", x) for x in nonmin_x] + [("bad", x) for x in bad]
     ctx.cov["distribution"].update({"wellformed_minimal": len(wf_x), "wellformed_nonminimal": len(nonmin_x),
-                                    "malformed": len(bad), "max_depth": max(depth_of(f) for f in wf),
+                                    "primitive_family": len(prim), "primitive_family_mutated": len(prim_bad), "malformed": len(bad), "max_depth": max(depth_of(f) for f in wf),
                                     "max_input_bytes": max(len(x) for _, x in all_inputs)})
 
     # ---------------- real unber on everything
@@ -496,6 +782,20 @@ def run(ctx):
             continue
         texts_for_enber.append((kind, x, out))
     ctx.cov["predicate"]["unber_safety_and_fields"] = {"cases": nP, "failures": len(pfail)}
+
+    # ---------------- P: the other presentation modes (default pretty-printing, -m, -i)
+    accepted_x = {x for k, x, _ in texts_for_enber if k != "bad"}
+    items = [(kind, x, forest) for (kind, x), forest in zip(all_inputs, wf + nonmin + [None] * len(bad))]
+    # a third of the general inputs (every non-minimal one), a quarter of the malformed ones (thorough tier: all / half)
+    k_wf, k_bad = (3, 4) if q else (1, 2)
+    items = [it for i, it in enumerate(items) if (it[0] == "wf" and i % k_wf == 0) or it[0] == "nonmin" or (it[0] == "bad" and i % k_bad == 0)]
+    accepted = {i for i, (kind, x, forest) in enumerate(items) if kind != "bad" and x in accepted_x}
+    # the primitive family: minimal definite / indefinite TLVs at most 3 deep - well-formed, so acceptance is demanded outright
+    n0 = len(items)
+    items += [("prim", encode_forest(f), f) for f in prim] + [("bad", x, None) for x in prim_bad]
+    accepted |= set(range(n0, n0 + len(prim)))
+    presentation_modes(ctx, unber, items, accepted, pfail)
+    ctx.log(f"presentation modes: {ctx.cov['predicate']['presentation_modes']}")
 
     # deep nesting (output is quadratic in the depth, so it is discarded; K compares the exit status / diagnostic
     # with the model's `unber_st`, P compares it with what the nesting rule demands)
@@ -626,7 +926,7 @@ def run(ctx):
         ctx.broken.append(d)
     if kdis:
         ctx.log(f"correspondence: {len(kdis)} disagreements, first: {json.dumps(kdis[0])[:1500]}")
-    ctx.assumptions += ["unber is run as `unber -p -` (stdin), enber as `enber -`; texts fed to enber are NUL-free",
+    ctx.assumptions += ["unber is run as `unber -p -` (stdin; the K leg and the round trip) and as `unber [-m] [-i n] [-p] -` (presentation modes, P leg only: the Lean model has no pretty-printer), enber as `enber -`; texts fed to enber are NUL-free",
                         "sanitizer leak detection is off (exit-time leaks are not memory errors)",
                         "stack use is runtime behaviour the model does not have: the model bounds the recursion level (theorem "
                         "unber_levels_bounded); that UNBER_MAX_NESTING_LEVEL + 1 frames of process_deeper fit the stack is measured "
@@ -640,6 +940,14 @@ def replay(ctx, path):
     if "input_hex" in r: ins.append(unhx(r["input_hex"]))
     for b in r.get("broken", []):
         if b.get("op", "").startswith("unber "): ins.append(unhx(b["op"].split()[1]))
+    tool = r.get("tool", "")
+    if "options" in r:
+        # a presentation-mode failure: rerun the input with the options of that mode
+        for x in ins:
+            rc, out, err = run_tool([unber] + list(r["options"]) + ["-"], x)
+            print("replay:", tool, hx(x)[:200], "| exit", rc, "|", err.strip()[:600])
+            print(out[:2000].decode("latin1"))
+        return
     for x in ins:
         rc, out, err = run_tool([unber, "-p", "-"], x)
         print("replay: unber -p", hx(x)[:200], "| exit", rc, "|", err.strip()[:300])
